@@ -174,7 +174,7 @@ def _uniform_case(c):
                                   dict(key, labels=lab)))
                 return fails, nevals
             pos = float(np.mean(alphas.clip(min=0.0)))
-            if pos != 0 and abs(pos - 1.0) > 1e-10:
+            if pos != 0 and not (abs(pos - 1.0) <= 1e-10):
                 fails.append(fail("normalisation", "level %r: mean of positive parts %r" % (lv, pos), key))
     return fails, nevals
 
@@ -252,7 +252,7 @@ def _nonuniform_case(c):
                                       dict(key, labels=lab)))
                     return fails, nevals
                 pos = float(np.inner(alphas.clip(min=0.0), w) / np.sum(w))
-                if pos != 0 and abs(pos - 1.0) > 1e-10:
+                if pos != 0 and not (abs(pos - 1.0) <= 1e-10):
                     fails.append(fail("normalisation", "points %r: weighted mean of positive parts %r" % (coords, pos), key))
     return fails, nevals
 
